@@ -342,7 +342,9 @@ class BaseData:
                     # the primary key follows the renamed column (in place: the list is already
                     # part of the emitted table)
                     self.primary_key[:] = [
-                        renamed_column["to"] if key == column["name"] else key
+                        renamed_column["to"]
+                        if normalize_name(key) == normalize_name(column["name"])
+                        else key
                         for key in self.primary_key
                     ]
                     column["name"] = renamed_column["to"]
